@@ -7,9 +7,11 @@ import (
 	"go/constant"
 	"go/token"
 	"go/types"
+	"os"
 	"sort"
 	"strings"
 	"sync"
+	"time"
 
 	"golang.org/x/tools/go/ssa"
 )
@@ -44,6 +46,16 @@ type State struct {
 	choices []string
 	visits  map[*ssa.BasicBlock]int // loop-head visit counts (per path)
 	pending *ssa.BasicBlock         // branch target still to be entered (forked child)
+	pending_ []pendingAssert        // assertions not yet discharged
+	simpMemo map[int]*Term          // memo of simp under the current known map
+	bounds   *bounds                // learned intervals
+}
+
+type pendingAssert struct {
+	c     *Term
+	label string
+	where string
+	stack []string
 }
 
 type Violation struct {
@@ -65,6 +77,8 @@ type Options struct {
 	Stubs         map[string]string
 	Params        map[string]int64
 	Verbose       bool
+	Deadline      time.Time
+	UFMul         bool // hash multiplication as uninterpreted function
 }
 
 type Executor struct {
@@ -100,7 +114,14 @@ type Executor struct {
 	FnsEntered   map[*ssa.Function]bool
 	Assumes      map[string]bool
 	Samples      []map[string]interface{}
+	QKinds       map[string]int
+	IVChecked    int
 }
+
+var checkIV = os.Getenv("GOSYMX_CHECK_IV") != ""
+
+var debugBranch = os.Getenv("GOSYMX_DEBUG") == "branch"
+var debugCount = map[string]int{}
 
 type engineError struct{ msg string }
 
@@ -228,6 +249,8 @@ func (st *State) clone(ex *Executor) *State {
 			c.visits[k] = v
 		}
 	}
+	c.pending_ = append([]pendingAssert(nil), st.pending_...)
+	c.bounds = st.bounds.clone()
 	c.heap = append([]*Object(nil), st.heap...)
 	st.gen = ex.newGen()
 	c.gen = ex.newGen()
@@ -255,6 +278,142 @@ func (ex *Executor) inconclusive(format string, a ...interface{}) {
 	}
 }
 
+// learn records what a conjunct that holds on the path tells about sub-terms.
+func (st *State) learn(c *Term, depth int) {
+	if c.IsConst() || depth > 8 {
+		return
+	}
+	set := func(t *Term, v uint64) {
+		if t.IsConst() {
+			return
+		}
+		if _, ok := st.known[t.id]; !ok {
+			st.known[t.id] = v
+			st.simpMemo = nil
+		}
+	}
+	set(c, 1)
+	switch c.op {
+	case OpBNot:
+		x := c.a[0]
+		set(x, 0)
+		if x.op == OpBOr { // not(a or b): both false
+			st.learnFalse(x.a[0], depth+1)
+			st.learnFalse(x.a[1], depth+1)
+		}
+	case OpBAnd:
+		st.learn(c.a[0], depth+1)
+		st.learn(c.a[1], depth+1)
+	case OpEq:
+		if c.a[1].IsConst() {
+			set(c.a[0], c.a[1].val)
+		} else if c.a[0].IsConst() {
+			set(c.a[1], c.a[0].val)
+		}
+	case OpUlt, OpUle, OpSlt, OpSle:
+		st.learnCmp(c, true)
+	}
+	if c.op == OpBNot {
+		switch c.a[0].op {
+		case OpUlt, OpUle, OpSlt, OpSle:
+			st.learnCmp(c.a[0], false)
+		}
+	}
+}
+
+func (st *State) learnFalse(c *Term, depth int) {
+	if c.IsConst() || depth > 8 {
+		return
+	}
+	if _, ok := st.known[c.id]; !ok {
+		st.known[c.id] = 0
+		st.simpMemo = nil
+	}
+	switch c.op {
+	case OpBNot:
+		st.learn(c.a[0], depth+1)
+	case OpBOr:
+		st.learnFalse(c.a[0], depth+1)
+		st.learnFalse(c.a[1], depth+1)
+	case OpUlt, OpUle, OpSlt, OpSle:
+		st.learnCmp(c, false)
+	}
+}
+
+func (st *State) addPC(c *Term) {
+	if c.IsConst() {
+		return
+	}
+	st.pc = append(st.pc, c)
+	st.learn(c, 0)
+}
+
+// simp rewrites t using what the path condition is known to fix.
+func (ex *Executor) simp(st *State, t *Term) *Term {
+	if t.op == OpConst || (len(st.known) == 0 && st.bounds == nil) {
+		return t
+	}
+	if v, ok := st.known[t.id]; ok {
+		return ex.tt.Const(t.w, v)
+	}
+	if t.op == OpVar {
+		return t
+	}
+	if st.simpMemo == nil {
+		st.simpMemo = map[int]*Term{}
+	}
+	if r, ok := st.simpMemo[t.id]; ok {
+		return r
+	}
+	var a [3]*Term
+	changed := false
+	for i, x := range t.a {
+		if x == nil {
+			break
+		}
+		a[i] = ex.simp(st, x)
+		if a[i] != x {
+			changed = true
+		}
+	}
+	r := t
+	if changed {
+		r = ex.tt.Rebuild(t, a[0], a[1], a[2])
+		if v, ok := st.known[r.id]; ok {
+			r = ex.tt.Const(r.w, v)
+		}
+	}
+	if st.bounds != nil && r.w == 0 && !r.IsConst() {
+		switch r.op {
+		case OpUlt, OpUle, OpSlt, OpSle, OpEq:
+			if v, ok := st.decideCmp(r); ok {
+				if checkIV {
+					neg := r
+					if v {
+						neg = ex.tt.Not(r)
+					}
+					if ex.sol.Check(append(append([]*Term(nil), st.pc...), neg)) != Unsat {
+						panic("interval domain disagrees with the solver on " + ex.tt.String(r))
+					}
+					ex.IVChecked++
+				}
+				r = ex.tt.Bool(v)
+			}
+		}
+	}
+	st.simpMemo[t.id] = r
+	return r
+}
+
+func (ex *Executor) check(kind string, q []*Term) SatResult {
+	r := ex.sol.Check(q)
+	if ex.QKinds == nil {
+		ex.QKinds = map[string]int{}
+	}
+	ex.QKinds[kind+"/"+r.String()]++
+	return r
+}
+
 // feasible asks whether pc ∧ cond is satisfiable; on Sat the model is returned.
 func (ex *Executor) feasible(st *State, cond *Term) (bool, *Model) {
 	if cond.IsConst() {
@@ -267,7 +426,7 @@ func (ex *Executor) feasible(st *State, cond *Term) (bool, *Model) {
 		return true, st.model
 	}
 	q := append(append([]*Term(nil), st.pc...), cond)
-	switch ex.sol.Check(q) {
+	switch ex.check("feasible", q) {
 	case Sat:
 		return true, ex.sol.GetModel()
 	case Unsat:
@@ -315,13 +474,17 @@ func (ex *Executor) stack(st *State) []string {
 }
 
 func (ex *Executor) recordViolation(st *State, label string, m *Model) {
-	key := label + "@" + ex.where(st)
+	ex.recordViolationAt(st, label, ex.where(st), ex.stack(st), m)
+}
+
+func (ex *Executor) recordViolationAt(st *State, label, where string, stack []string, m *Model) {
+	key := label + "@" + where
 	if ex.violKeys[key] {
 		return
 	}
 	ex.violKeys[key] = true
-	v := Violation{Harness: ex.harness, Label: label, Pos: ex.where(st), Values: map[string]uint64{},
-		Choices: append([]string(nil), st.choices...), Params: ex.opt.Params, Stack: ex.stack(st)}
+	v := Violation{Harness: ex.harness, Label: label, Pos: where, Values: map[string]uint64{},
+		Choices: append([]string(nil), st.choices...), Params: ex.opt.Params, Stack: stack}
 	for _, x := range ex.tt.vars {
 		v.Values[x.name] = m.Eval(x)
 	}
@@ -330,6 +493,7 @@ func (ex *Executor) recordViolation(st *State, label string, m *Model) {
 
 // require splits on a runtime check: ok must hold, otherwise the program panics.
 func (ex *Executor) require(st *State, ok *Term, kind string) {
+	ok = ex.simp(st, ok)
 	if ok.IsConst() {
 		if ok.val == 1 {
 			return
@@ -348,7 +512,7 @@ func (ex *Executor) require(st *State, ok *Term, kind string) {
 			panic(pathEnd{})
 		}
 		st.model = m
-		st.pc = append(st.pc, ok)
+		st.addPC(ok)
 		return
 	}
 	key := "panic: " + kind + "@" + ex.where(st)
@@ -356,13 +520,16 @@ func (ex *Executor) require(st *State, ok *Term, kind string) {
 		f, m := ex.feasible(st, notOk)
 		if f {
 			ex.recordViolation(st, "panic: "+kind, m)
+		} else if debugBranch {
+			debugCount["REQ "+ex.where(st)+"  "+ex.tt.String(notOk)]++
 		}
 	}
-	st.pc = append(st.pc, ok)
+	st.addPC(ok)
 }
 
 // assume constrains the path; ends it when infeasible.
 func (ex *Executor) assume(st *State, c *Term) {
+	c = ex.simp(st, c)
 	if c.IsConst() {
 		if c.val == 1 {
 			return
@@ -374,7 +541,7 @@ func (ex *Executor) assume(st *State, c *Term) {
 		panic(pathEnd{})
 	}
 	st.model = m
-	st.pc = append(st.pc, c)
+	st.addPC(c)
 }
 
 // cval concretises t, forking one state per feasible value.
@@ -385,6 +552,9 @@ func (ex *Executor) cval(st *State, t *Term) uint64 {
 	if v, ok := st.known[t.id]; ok {
 		return v
 	}
+	if s := ex.simp(st, t); s.IsConst() {
+		return s.val
+	}
 	v0 := st.model.Eval(t)
 	vals := []uint64{v0}
 	models := []*Model{st.model}
@@ -392,7 +562,7 @@ func (ex *Executor) cval(st *State, t *Term) uint64 {
 	// cheap syntactic case: small range
 	for {
 		q := append(append([]*Term(nil), st.pc...), excl)
-		r := ex.sol.Check(q)
+		r := ex.check("enumerate", q)
 		if r == Unknown {
 			ex.inconclusive("solver unknown while enumerating values at %s", ex.where(st))
 			break
@@ -413,14 +583,14 @@ func (ex *Executor) cval(st *State, t *Term) uint64 {
 	for i := len(vals) - 1; i >= 1; i-- {
 		c := st.clone(ex)
 		k := ex.tt.Const(t.w, vals[i])
-		c.pc = append(c.pc, ex.tt.Eq(t, k))
+		c.addPC(ex.tt.Eq(t, k))
 		c.known[t.id] = vals[i]
 		c.model = models[i]
 		c.substitute(t, k)
 		ex.work = append(ex.work, c)
 	}
 	k := ex.tt.Const(t.w, v0)
-	st.pc = append(st.pc, ex.tt.Eq(t, k))
+	st.addPC(ex.tt.Eq(t, k))
 	st.known[t.id] = v0
 	st.substitute(t, k)
 	return v0
@@ -566,6 +736,11 @@ func (ex *Executor) Run(entry *ssa.Function) {
 		if err := ex.runPathCatch(s); err != nil {
 			ex.inconclusive("engine: %v", err)
 		}
+		if !ex.opt.Deadline.IsZero() && time.Now().After(ex.opt.Deadline) && len(ex.work) > 0 {
+			ex.inconclusive("time budget exhausted with %d states pending after %d paths", len(ex.work), ex.Paths)
+			ex.work = nil
+			break
+		}
 		if ex.opt.MaxPaths > 0 && ex.Paths >= ex.opt.MaxPaths && len(ex.work) > 0 {
 			ex.inconclusive("path budget %d exhausted with %d states pending", ex.opt.MaxPaths, len(ex.work))
 			ex.work = nil
@@ -586,7 +761,7 @@ func (ex *Executor) runPathCatch(st *State) (err error) {
 			switch x := r.(type) {
 			case pathEnd:
 				ex.Paths++
-				err = nil
+				err = ex.flushCatch(st)
 			case engineError:
 				ex.Paths++
 				err = fmt.Errorf("%s at %s", x.msg, ex.where(st))
@@ -610,6 +785,9 @@ func (ex *Executor) runPathCatch(st *State) (err error) {
 		}
 	}
 	ex.Paths++
+	if e := ex.flushCatch(st); e != nil {
+		return e
+	}
 	if len(ex.Samples) < 4 {
 		smp := map[string]interface{}{"path": st.id, "choices": st.choices, "steps": st.steps, "pc_conjuncts": len(st.pc)}
 		vals := map[string]uint64{}
@@ -619,6 +797,23 @@ func (ex *Executor) runPathCatch(st *State) (err error) {
 		smp["witness"] = vals
 		ex.Samples = append(ex.Samples, smp)
 	}
+	return nil
+}
+
+// flushCatch discharges the deferred assertions when a path ends.
+func (ex *Executor) flushCatch(st *State) (err error) {
+	defer func() {
+		if r := recover(); r != nil {
+			switch x := r.(type) {
+			case pathEnd:
+			case engineError:
+				err = fmt.Errorf("%s", x.msg)
+			default:
+				panic(r)
+			}
+		}
+	}()
+	ex.flushAsserts(st)
 	return nil
 }
 
@@ -852,6 +1047,7 @@ func (ex *Executor) step(st *State) {
 
 func (ex *Executor) branch(st *State, fr *Frame, c *Term) {
 	tt := ex.tt
+	c = ex.simp(st, c)
 	if c.IsConst() {
 		if c.val == 1 {
 			ex.jump(st, fr, fr.blk.Succs[0])
@@ -868,18 +1064,22 @@ func (ex *Executor) branch(st *State, fr *Frame, c *Term) {
 		ti, oi = 1, 0
 	}
 	q := append(append([]*Term(nil), st.pc...), other)
-	switch ex.sol.Check(q) {
+	switch ex.check("branch", q) {
 	case Sat:
 		m := ex.sol.GetModel()
 		child := st.clone(ex)
 		child.model = m
-		child.pc = append(child.pc, other)
+		child.addPC(other)
 		child.pending = fr.blk.Succs[oi]
 		ex.work = append(ex.work, child)
 	case Unknown:
 		ex.inconclusive("solver unknown on a branch at %s", ex.where(st))
+	case Unsat:
+		if debugBranch {
+			debugCount[ex.where(st)+"  "+ex.tt.String(other)]++
+		}
 	}
-	st.pc = append(st.pc, take)
+	st.addPC(take)
 	ex.jump(st, fr, fr.blk.Succs[ti])
 }
 
